@@ -48,7 +48,7 @@ type LenCheck struct {
 }
 
 type Summary struct {
-	LenChecks []LenCheck // make([]T, n) filled by index in a counting loop: n vs trip count
+	LenChecks []LenCheck       // make([]T, n) filled by index in a counting loop: n vs trip count
 	LocalInit map[string]*Term // initial value of address-taken locals that are assigned again later
 	Fn        *ssa.Function
 	Results   []*Term
